@@ -32,6 +32,73 @@ pub struct Guard {
 
 thread_local! {
     static TIMERS: RefCell<Vec<Weak<Shared>>> = const { RefCell::new(Vec::new()) };
+    static CLOCK: RefCell<Option<Arc<ClockCtl>>> = const { RefCell::new(None) };
+}
+
+/// Jitter mode: a clock task that, whenever the scheduler picks it, moves the clock to the next due
+/// item - timers become due while sessions are in the middle of a macrostep.
+struct ClockCtl {
+    stop: Mutex<bool>,
+    cv: Condvar,
+}
+
+fn clock_ctl() -> Option<Arc<ClockCtl>> {
+    CLOCK.with(|c| c.borrow().clone())
+}
+
+fn notify_clock() {
+    if let Some(c) = clock_ctl() {
+        let _g = c.stop.lock().unwrap();
+        c.cv.notify_all();
+    }
+}
+
+/// Start the jitter clock task (driver only). `max_jump` bounds how far one step may move the clock.
+pub fn start_jitter_clock() -> shuttle::thread::JoinHandle<()> {
+    let ctl = Arc::new(ClockCtl { stop: Mutex::new(false), cv: Condvar::new() });
+    CLOCK.with(|c| *c.borrow_mut() = Some(ctl.clone()));
+    shuttle::thread::Builder::new()
+        .name("clock".to_string())
+        .spawn(move || {
+            let me = rec::current_task();
+            rec::with(|r| {
+                r.task_names.insert(me, "clock".to_string());
+            });
+            loop {
+                {
+                    let mut g = ctl.stop.lock().unwrap();
+                    loop {
+                        if *g {
+                            return;
+                        }
+                        // only something that lies in the future can be advanced to; items that are
+                        // already due are the timer tasks' business
+                        if rec::with(|r| r.next_due().map(|d| d > r.now).unwrap_or(false)) {
+                            break;
+                        }
+                        g = ctl.cv.wait(g).unwrap();
+                    }
+                }
+                if let Some(d) = rec::with(|r| r.next_due()) {
+                    rec::with(|r| r.bump("jitter_clock_advance"));
+                    advance_to(d);
+                }
+                shuttle::thread::yield_now();
+            }
+        })
+        .unwrap()
+}
+
+pub fn stop_jitter_clock(h: shuttle::thread::JoinHandle<()>) {
+    if let Some(c) = clock_ctl() {
+        {
+            let mut g = c.stop.lock().unwrap();
+            *g = true;
+            c.cv.notify_all();
+        }
+        let _ = h.join();
+    }
+    CLOCK.with(|c| *c.borrow_mut() = None);
 }
 
 fn recompute_inflight(r: &mut rec::Recorder) {
@@ -87,6 +154,7 @@ impl Timer {
                 .unwrap();
         }
         self.shared.cv.notify_all();
+        notify_clock();
         Guard { item, live: true }
     }
 }
@@ -157,6 +225,7 @@ fn timer_loop(shared: Arc<Shared>) {
                 recompute_inflight(r);
             });
             crate::driver::maybe_notify();
+            notify_clock();
         }
     }
 }
@@ -235,4 +304,5 @@ pub fn advance_to(t: u64) {
 /// Forget all timers of a finished run (the OS thread goes away anyway).
 pub fn reset() {
     TIMERS.with(|t| t.borrow_mut().clear());
+    CLOCK.with(|c| *c.borrow_mut() = None);
 }
